@@ -52,7 +52,10 @@ def run(res, ctx):
         elif kk < 0.3:
             nsh, cost = core.D(rng.randint(1, 500), rng.choice([1, 2, 3])), core.D(0)
         else:
-            nsh, cost = core.D(rng.randint(1, 300)), core.D(rng.randint(0, 500000), 2)
+            # total cost with cents, or with a sub-cent part (carried over from a full-precision printout,
+            # or a foreign-currency cost)
+            sc = rng.choice([2, 2, 3, 4, 8])
+            nsh, cost = core.D(rng.randint(1, 300)), core.D(rng.randint(0, 5 * 10 ** (3 + sc)), sc)
         inits = {target: (nsh, cost)}
         other = {}
         if rng.random() < 0.4:
